@@ -241,6 +241,9 @@ class NodeData:
         self.code = {"": [], "end": [], "else": []}
 
     def set_constant(self, value):
+        if isinstance(value, bool):
+            # folded comparisons / 'not' yield Python bools; IC10 knows 1 and 0
+            value = int(value)
         self.is_constant = True
         self.constant_value = value
         self.result = value
